@@ -610,7 +610,7 @@ func main() {
 		}
 	}
 
-	invariants := "TypeOK CleanupOnce HandlerFirstMatch NoneLost EscapeIntact FinalOK RejectedNeverRuns + deadlock"
+	invariants := "TypeOK CleanupOnce HandlerFirstMatch NoneLost HandledStack EscapeIntact FinalOK RejectedNeverRuns + deadlock"
 	genCfg, simCfg := "gen_quick.cfg", "sim3.cfg"
 	simTraces, simDepth := 1200, 400
 	if env.Thorough() {
